@@ -115,6 +115,8 @@ func cmdRun(args []string) {
 		ch := make(chan Instance)
 		var mu sync.Mutex
 		var wg sync.WaitGroup
+		var kfMu sync.Mutex
+		kfBase := kf.openSet()
 		for w := 0; w < *jobs; w++ {
 			wg.Add(1)
 			go func() {
@@ -123,7 +125,10 @@ func cmdRun(args []string) {
 				defer sol.Close()
 				for in := range ch {
 					it0 := time.Now()
-					r := runInstance(ld, sol, in, runOpts{kfOpen: kf.openSet(), collectND: true})
+					kfMu.Lock()
+					ko := kf.openSetFor(pd.ID+":"+in.Name, kfBase)
+					kfMu.Unlock()
+					r := runInstance(ld, sol, in, runOpts{kfOpen: ko, collectND: true})
 					r.WallS = time.Since(it0).Seconds()
 					mu.Lock()
 					results = append(results, r)
@@ -251,8 +256,23 @@ func cmdRun(args []string) {
 	type ra struct{ in, hit map[string]bool }
 	audit := map[string]*ra{}
 	for _, r := range results {
+		undecided := len(r.Aborted) > 0 || r.PathLimit || r.UnknownBr > 0
+		for _, o := range r.Obls {
+			if o.Verdict == "inconclusive" {
+				undecided = true
+			}
+		}
 		for _, o := range r.Obls {
 			if o.KF == "" {
+				continue
+			}
+			if undecided {
+				// an instance with anything undecided is never reported as "no failure in the region"
+				if audit[o.KF] == nil {
+					audit[o.KF] = &ra{map[string]bool{}, map[string]bool{}}
+				}
+				audit[o.KF].in[r.Inst.Name] = true
+				audit[o.KF].hit[r.Inst.Name] = true
 				continue
 			}
 			a := audit[o.KF]
@@ -275,6 +295,9 @@ func cmdRun(args []string) {
 			}
 		}
 		sort.Strings(quiet)
+		for i := range quiet {
+			quiet[i] = pd.ID + ":" + quiet[i] // (instance names are only unique within a property)
+		}
 		regionAudit[id] = map[string]interface{}{"instances_in_region": len(a.in), "instances_where_the_failure_was_found": len(a.hit), "in_region_without_failure": quiet}
 		if os.Getenv("GOSYM_KFAUDIT") != "" && len(quiet) > 0 {
 			fmt.Printf("KF-AUDIT %s: %d of %d instances in the region show no failure there: %v\n", id, len(quiet), len(a.in), quiet)
